@@ -4,4 +4,5 @@ NoDev == {}
 DevCodeLost == {"client_close_code_lost"}
 DevAfterClose == {"messages_after_close_frame"}
 DevConnectedEarly == {"connected_before_response"}
+DevClosedLate == {"closed_after_refusal"}
 =============================================================================
